@@ -39,6 +39,9 @@ def plan(tier, seed):
     # the hash-only hammer: many short digests of different lengths in parallel (native code runs without the GIL)
     specs.append({"kind": "hash_hammer", "flavour": "plain", "threads": 8, "n": 30000 if q else 200000})
     specs.append({"kind": "hash_hammer", "flavour": "tsan", "threads": 8, "n": 4000 if q else 30000, "timeout_s": 1200})
+    specs.append({"kind": "native_hammer", "flavour": "plain", "threads": 8, "rounds": 60 if q else 600})
+    specs.append({"kind": "native_hammer", "flavour": "plain", "threads": 4, "rounds": 100 if q else 1000, "env": {"PYCRYPTODOME_DISABLE_GMP": "1"}})
+    specs.append({"kind": "native_hammer", "flavour": "tsan", "threads": 8, "rounds": 4 if q else 40, "timeout_s": 1500})
     for i in range(2 if q else 4):
         specs.append({"kind": "interleave", "idx": i, "budget_s": 25 if q else 200})
     specs.append({"kind": "interleave", "idx": 99, "flavour": "asan", "budget_s": 25 if q else 150, "timeout_s": 1200})
@@ -55,7 +58,7 @@ def finalize(agg, tier):
     out = []
     for n in ("thread_runs:tsan", "thread_runs:plain", "thread_transcripts_compared", "hammer_digests", "interleaved_programs",
               "copies_checked", "destroyed_neighbours", "snapshots_compared", "signer_hash_state_checked", "first_use_trials",
-              "first_use_yields_injected"):
+              "first_use_yields_injected", "native_hammer_calls", "native_hammer_runs:plain", "native_hammer_runs:tsan"):
         if not c.get(n):
             out.append("deciding counter %s is zero" % n)
     for cv in CURVES:
@@ -389,6 +392,140 @@ def w_hash_hammer(spec, ctx):
                       "a hash digest computed while other threads hash other messages differs from the digest computed alone",
                       {"hash": nm, "threads": nt, "mismatches": len(lst), "examples": lst[:3]})
     ctx.sample({"hammer": names, "threads": nt, "digests": total[0], "flavour": flavour})
+
+
+def _micro_ops(rng, S):
+    """[(family, callable -> bytes)]: short calls into native code on objects PRIVATE to the calling thread, with operand
+    sizes that coincide between threads (process-wide scratch buffers keyed by size are the realistic hazard)."""
+    from Crypto.Math._IntegerCustom import IntegerCustom as IC
+    from Crypto.Math._IntegerGMP import IntegerGMP as IG
+    from Crypto.Cipher import AES, DES3, Blowfish, ChaCha20, Salsa20, PKCS1_OAEP, PKCS1_v1_5
+    from Crypto.Hash import SHA256, SHA1, SHA512, SHA3_256, BLAKE2b, HMAC, CMAC, Poly1305, SHAKE128, KMAC128
+    from Crypto.Util.strxor import strxor, strxor_c
+    from Crypto.Util.Padding import pad
+    from Crypto.Protocol.KDF import PBKDF2, scrypt, HKDF
+    from Crypto.Util import number
+    rb = rng.randbytes
+    ops = []
+    for bits in (1024, 1024, 2048, 512):
+        m = rng.getrandbits(bits) | 1 | (1 << (bits - 1))
+        a, e = rng.getrandbits(bits - 1), rng.getrandbits(rng.choice([17, 64, 256]))
+        ops.append(("modexp-custom", lambda a=a, e=e, m=m, bits=bits: int(pow(IC(a), e, m)).to_bytes(bits // 8, "big")))
+        ops.append(("modexp-gmp", lambda a=a, e=e, m=m, bits=bits: int(pow(IG(a), e, m)).to_bytes(bits // 8, "big")))
+        b = rng.getrandbits(bits - 1)
+        ops.append(("mult-modulo-bytes", lambda a=a, b=b, m=m: bytes(IC._mult_modulo_bytes(IC(a), IC(b), IC(m)))))
+        ops.append(("gmp-arith", lambda a=a, b=b, m=m, bits=bits: int((IG(a) * IG(b) + IG(b)) % IG(m)).to_bytes(bits // 8, "big")
+                    + int(IG(a).inverse(m) if number.GCD(a, m) == 1 else IG(0)).to_bytes(bits // 8, "big")))
+    k16, k24, k32, iv16, iv8 = rb(16), rb(24), rb(32), rb(16), rb(8)
+    for n in (16, 16, 32, 64, 256):
+        d = rb(n)
+        ops.append(("ecb", lambda d=d: AES.new(k16, AES.MODE_ECB).encrypt(d) + AES.new(k32, AES.MODE_ECB, use_aesni=False).decrypt(d)))
+        ops.append(("cbc", lambda d=d: AES.new(k16, AES.MODE_CBC, iv=iv16).encrypt(d) + Blowfish.new(k16, Blowfish.MODE_CBC, iv=iv8).encrypt(d)))
+        ops.append(("ctr", lambda d=d: AES.new(k24, AES.MODE_CTR, nonce=iv8).encrypt(d) + DES3.new(k24_des(k24), DES3.MODE_CTR, nonce=b"1234").encrypt(d)))
+        ops.append(("stream", lambda d=d: ChaCha20.new(key=k32, nonce=iv8).encrypt(d) + Salsa20.new(key=k32, nonce=iv8).encrypt(d)))
+        ops.append(("aead", lambda d=d: b"".join(AES.new(k16, AES.MODE_GCM, nonce=iv16[:12]).encrypt_and_digest(d))
+                    + b"".join(AES.new(k16, AES.MODE_OCB, nonce=iv16[:15]).encrypt_and_digest(d))
+                    + b"".join(AES.new(k16, AES.MODE_EAX, nonce=iv16).encrypt_and_digest(d))
+                    + b"".join(AES.new(k32 + k32, AES.MODE_SIV, nonce=iv16).encrypt_and_digest(d))))
+        ops.append(("mac", lambda d=d: HMAC.new(k16, d, digestmod=SHA256).digest() + CMAC.new(k16, d, ciphermod=AES).digest()
+                    + Poly1305.new(key=k32, nonce=iv16, cipher=AES, data=d).digest() + KMAC128.new(key=k32, mac_len=16, data=d).digest()))
+        ops.append(("hash", lambda d=d: SHA256.new(d).digest() + SHA1.new(d).digest() + SHA512.new(d).digest() + SHA3_256.new(d).digest()
+                    + BLAKE2b.new(data=d, digest_bytes=32).digest() + SHAKE128.new(d).read(48)))
+        ops.append(("strxor", lambda d=d, e=rb(n): strxor(d, e) + strxor_c(d, 0x5A)))
+    pw, salt = rb(9), rb(16)
+    ops.append(("kdf", lambda: PBKDF2(pw, salt, 24, count=3, hmac_hash_module=SHA1) + HKDF(pw, 32, salt, SHA256) + scrypt(pw, salt, 16, N=16, r=1, p=1)))
+    msg = rb(40)
+    ct_oaep = PKCS1_OAEP.new(S.rsa, randfunc=rng.randbytes).encrypt(msg)
+    ct_v15 = PKCS1_v1_5.new(S.rsa, randfunc=lambda n: bytes(rng.randrange(1, 256) for _ in range(n))).encrypt(msg)
+    sentinel = rb(16)
+    bad_v15 = bytes([ct_v15[0] ^ 1]) + ct_v15[1:]
+    oaep = PKCS1_OAEP.new(S.rsa)             # cipher objects private to this thread, shared (read-only) key
+    v15 = PKCS1_v1_5.new(S.rsa)
+    ops.append(("rsa-decrypt", lambda: oaep.decrypt(ct_oaep) + v15.decrypt(ct_v15, sentinel) + v15.decrypt(bad_v15, sentinel)))
+    for cv in ("P-256", "Ed25519", "Ed448", "Curve25519"):
+        key = S.ecc[cv]
+        k = rng.getrandbits(200) | 1
+
+        def ecop(key=key, k=k, cv=cv):
+            P = key.pointQ * k
+            if cv.startswith("Curve"):
+                return int(P.x).to_bytes(32, "big")
+            Q = P + key.pointQ
+            return int(Q.x).to_bytes(66, "big") + int(Q.y).to_bytes(66, "big")
+        ops.append(("ec", ecop))
+    return ops
+
+
+def k24_des(k):
+    """a 24-byte 3DES key with three distinct parts, derived from k without touching the parity check"""
+    from Crypto.Cipher import DES3
+    for i in range(256):
+        try:
+            kk = DES3.adjust_key_parity(bytes([b ^ i for b in k[:8]]) + k[8:])
+            DES3.new(kk, DES3.MODE_ECB)
+            return kk
+        except ValueError:
+            continue
+    raise RuntimeError("no 3DES key")
+
+
+def w_native_hammer(spec, ctx):
+    """Every thread repeats its own list of short native calls (thread-private objects, operand sizes shared between the
+    threads); each result must equal the one the same call gave when it ran alone."""
+    import random as _r
+    sys.setswitchinterval(1e-6)
+    S = Shared()
+    nt, rounds = spec["threads"], spec["rounds"]
+    flavour = spec.get("flavour", "plain")
+    plans = {}
+    for t in range(nt):
+        rng = _r.Random("native-hammer/%s/%d" % (ctx.seed, t))
+        ops = _micro_ops(rng, S)
+        plans[t] = (ops, [f() for _, f in ops])
+    bad, lock, total, errors = [], threading.Lock(), [0] * nt, []
+    barrier = threading.Barrier(nt)
+
+    def body(t):
+        ops, expect = plans[t]
+        order = list(range(len(ops)))
+        r = _r.Random(t)
+        try:
+            barrier.wait()
+            for _ in range(rounds):
+                r.shuffle(order)
+                for i in order:
+                    got = ops[i][1]()
+                    total[t] += 1
+                    if got != expect[i]:
+                        with lock:
+                            if len(bad) < 200:
+                                bad.append((ops[i][0], got.hex()[:160], expect[i].hex()[:160]))
+        except BaseException:      # noqa
+            import traceback
+            errors.append(traceback.format_exc()[-1500:])
+    ths = [threading.Thread(target=body, args=(t,)) for t in range(nt)]
+    for th in ths:
+        th.start()
+    for th in ths:
+        th.join()
+    n = sum(total)
+    ctx.count("native_hammer_calls", n)
+    ctx.count("native_hammer_runs:" + flavour)
+    ctx.ev(n)
+    fams = sorted({f for f, _ in plans[0][0]})
+    for f in fams:
+        ctx.case(("native-hammer", f, nt, flavour))
+    for tb in errors[:3]:
+        ctx.violation("threads:exception-in-thread", "a thread working on its own objects raised while others ran concurrently",
+                      {"threads": nt, "traceback": tb})
+    by = {}
+    for fam, g, e in bad:
+        by.setdefault(fam, []).append({"concurrent": g, "alone": e})
+    for fam, lst in by.items():
+        ctx.violation("threads:result-differs-from-solo:" + fam,
+                      "a result computed while other threads were using other objects differs from the same computation run alone",
+                      {"family": fam, "threads": nt, "flavour": flavour, "mismatches": len(lst), "examples": lst[:3]})
+    ctx.sample({"native_hammer": fams, "threads": nt, "calls": n, "flavour": flavour})
 
 
 # ---------------------------------------------------------------------------
